@@ -175,6 +175,15 @@ class FuncInfo:
         a = self.node.args
         return a.posonlyargs + a.args + a.kwonlyargs
 
+    def is_property(self):
+        """a getter: `@property` / `@cached_property` (the attribute load X.name runs this body)"""
+        if self.is_module_body:
+            return False
+        for d in self.node.decorator_list:
+            if norm(d).split('.')[-1] in ('property', 'cached_property'):
+                return True
+        return False
+
     def is_static(self):
         if self.is_module_body:
             return True
@@ -710,6 +719,10 @@ class Repo:
                 if bt[0] == 'inst':
                     c = bt[1]
                     m = c.find_method(e.attr)
+                    if m is not None and m.is_property():
+                        if m.node.returns is not None:
+                            out.add(self.ann_type(m.module, m.node.returns, m.cls))
+                        continue
                     if m is not None:
                         out.add(('bound', m, c))
                     out |= self.attr_types(c, e.attr)
@@ -898,9 +911,10 @@ BUILTIN_FUNCS = set(dir(__builtins__)) if not isinstance(__builtins__, dict) els
 
 
 class CallSite:
-    __slots__ = ('caller', 'node', 'targets', 'kind', 'ext')
+    __slots__ = ('caller', 'node', 'targets', 'kind', 'ext', 'prop')
 
     def __init__(self, caller, node):
+        self.prop = False       # the node is an Attribute load that runs a @property getter, not a Call
         self.caller = caller
         self.node = node
         self.targets = set()    # FuncInfo
@@ -941,6 +955,41 @@ class CallGraph:
                 out.append(n)
         return out
 
+    def _property_names(self):
+        if getattr(self, '_prop_names', None) is None:
+            self._prop_names = {}
+            for g in self.repo.all_funcs():
+                if g.cls is not None and g.is_property():
+                    self._prop_names.setdefault(g.name, []).append(g)
+        return self._prop_names
+
+    def _property_sites(self, f, skip):
+        """A load of X.name where name is a getter of X's class runs that getter: a call site whose node is the Attribute."""
+        props = self._property_names()
+        out = []
+        if not props:
+            return out
+        for n in f.body_nodes():
+            if isinstance(n, ast.Attribute) and isinstance(n.ctx, ast.Load) and n.attr in props and id(n) not in skip:
+                s = CallSite(f, n)
+                insts = [t for t in self.repo.expr_types(f, n.value) if t[0] == 'inst']
+                if insts:
+                    s.kind = 'virtual'
+                    for t in insts:
+                        m = t[1].find_method(n.attr)
+                        if m is not None and m.is_property():
+                            s.targets.add(m)
+                        for k in self.repo.subclasses(t[1]):
+                            if n.attr in k.methods and k.methods[n.attr].is_property():
+                                s.targets.add(k.methods[n.attr])
+                else:
+                    s.kind = 'cha'
+                    s.targets |= set(props[n.attr])
+                if s.targets:
+                    s.prop = True
+                    out.append(s)
+        return out
+
     def _main_guard_nodes(self, m):
         """nodes inside `if __name__ == '__main__'` blocks of non-main modules (never executed)"""
         skip = set()
@@ -963,6 +1012,7 @@ class CallGraph:
                 if id(call) in skip:
                     continue
                 sites.append(self._resolve_site(f, call))
+            sites.extend(self._property_sites(f, skip))
             raw[f] = sites
         self.sites = raw
         # callable flows (higher-order)
@@ -1292,7 +1342,7 @@ class CallGraph:
             # bound-method calls: find via sites whose targets include g
             for f, ss in self.sites.items():
                 for s in ss:
-                    if g in s.targets and s.kind in ('virtual', 'cha', 'exact') and isinstance(s.node.func, ast.Attribute):
+                    if g in s.targets and not s.prop and s.kind in ('virtual', 'cha', 'exact') and isinstance(s.node.func, ast.Attribute):
                         sites.append((f, s.node))
             off = 1
         else:
